@@ -26,7 +26,7 @@ use vengine::{prop_sub, Property, Tier};
 pub fn property() -> Property {
     Property {
         id: "C13",
-        rule: "case = (layout separable|overlap|imbalanced 1:5|duplicated points, n, 1..3 features, kernel linear|Gaussian|polynomial, \
+        rule: "case = (layout separable|overlap|imbalanced 1:5|duplicated points, n, 1..3 features, feature offset 0|1e1..1e3|1e7|1e8 (Gaussian kernel), kernel linear|Gaussian|polynomial, \
                task C-SVC with (c+,c-)|nu-SVC|eps-SVR|nu-SVR|one-class, solver eps 1e-3|1e-5, shrinking, f32|f64, 4 fresh points), built from \
                proptest-drawn gaussian noise and selectors. Non-trivial = the solver reports exit on the threshold and the published solution \
                has at least one free and at least one bounded support vector; with shrinking additionally iterations > min(#variables, 1000) \
@@ -49,6 +49,7 @@ pub fn property() -> Property {
             "nsupport = number of coefficients with |a_i| > 100 eps_mach (the definition in the code); the corner of a coefficient within a factor r of that threshold is not targeted".into(),
             "Platt calibration errors (line search / iteration limit of the calibration) are counted, not judged; probabilities must be monotone within 1e-6 in the model's own decision value".into(),
             "f32 cases: C <= 10, eps = 1e-3, all numbers of the case exactly representable in f32".into(),
+            "un-centred data (class offset_data): with the Gaussian kernel 5 of 8 cases get a common offset per feature (magnitude x (1, -0.75, 0.5)): 10, 100, 1e3, 1e7, 1e8 in f64 and 10, 100, 300, 1e3 in f32, spread and kernel width unchanged. The reference kernel is sum_k (a_k - b_k)^2 in f64 on the exactly stored values; differences of stored floats within a factor 2 are exact in either float type, so no tolerance changes. Linear and polynomial kernels are generated on centred data only: their values grow like offset^2, which would make the KKT slack (relative to sum |a_j K_ij|) vacuous and drive SMO into its iteration cap".into(),
             "C in 10^[-2,3] for classification; for SVR the exponent range is compressed to C <= 31.6 (linear, Gaussian, degree 1), <= 3.2 (degree 2), <= 1 (degree 3): beyond that SMO needs 10^6..10^7 iterations per fit (linfa's cap is 10^7), a cost limit of the harness, not a domain limit of the property; the large-n stratum uses C <= 10".into(),
             "loss epsilon of eps-SVR in {0.001, 0.01, 0.1, 0.5}: c_svr(c, Some(0.0)) is rejected by linfa's parameter check (InvalidC), so 0 is not generated".into(),
         ],
@@ -73,7 +74,7 @@ pub fn property() -> Property {
                 oracle::check,
             )
             .chunks(16)
-            .require(&["task_c_svc", "task_nu_svc", "task_eps_svr", "task_one_class", "has_free_sv", "has_bounded_sv"]),
+            .require(&["task_c_svc", "task_nu_svc", "task_eps_svr", "task_one_class", "has_free_sv", "has_bounded_sv", "offset_data", "offset_ge_1e7_f64"]),
             prop_sub(
                 "f32",
                 2400,
@@ -81,7 +82,8 @@ pub fn property() -> Property {
                 |_t: Tier| case_strategy(Flavor { n_lo: 10, n_hi: 60, shrinking: false, single: true, c_lo: -200, c_hi: 100 }),
                 oracle::check,
             )
-            .chunks(8),
+            .chunks(8)
+            .require(&["offset_data", "offset_1e3_f32"]),
         ],
     }
 }
